@@ -21,7 +21,7 @@ def _worker(scratch, unit):
 
     r = runner.run_unit(unit, use_cache=False, tag="_mut%d" % os.getpid())
     out = {
-        "infra": r.infra,
+        "infra": r.infra + ["%s undecided: %s" % (oid, ob.get("undecided_reason", "")) for oid, ob in r.obligations.items() if ob["status"] == "undecided"],
         "failed": {
             oid: [{"class": f["class"], "message": f["message"], "expr": f.get("expr", "")[:120]} for f in ob["failures"]]
             for oid, ob in r.obligations.items()
